@@ -9,7 +9,7 @@ import warnings
 
 from .common import Suite, errname, hx, merge
 
-GEN_UNITS = ["Des", "Totp", "Blowfish", "Scrypt", "B64", "Md4"]
+GEN_UNITS = ["Des", "Totp", "Blowfish", "Scrypt", "B64", "Md4", "CryptoDigest"]
 LEAN_TARGETS = ["PasslibVerif.Props.C11", "PasslibVerif.Props.C11Blowfish", "PasslibVerif.Props.C11Scrypt", "PasslibVerif.Props.C11Md4"]
 ASSUMPTIONS = [
     "hashlib/OpenSSL digests, hashlib.pbkdf2_hmac and hashlib.scrypt are external; the Lean Spec/* transcriptions are validated against them on every run",
